@@ -78,10 +78,6 @@ Fixpoint raw_uncut (fuel : nat) (toks : list token) (recs : list trec) : bool :=
    from an opening delimiter to its closing delimiter follow each other from
    the first to the last byte of the source.  State: next offset, and whether a
    block is open. *)
-Definition is_open (ty : N) : bool :=
-  (ty =? gen_tokenLeftBraces) || (ty =? gen_tokenStartStatement) || (ty =? gen_tokenStartStatements).
-Definition is_close (ty : N) : bool :=
-  (ty =? gen_tokenRightBraces) || (ty =? gen_tokenEndStatement) || (ty =? gen_tokenEndStatements).
 Fixpoint tiles (pos : N) (inblock : bool) (toks : list token) : option N :=
   match toks with
   | [] => if inblock then None else Some pos
